@@ -1,4 +1,5 @@
 import Pyrtma.Proofs.ManagerSimCtl
+import Pyrtma.Proofs.ManagerSimOwedData
 /-!
 # Refinement of the history-based Spec by the manager model M1 — part 4b: data frames (C01)
 
@@ -121,7 +122,9 @@ include ok hfuel hperm inv hm hget hal he hb q hc hd hs
     and so does C14's "a logger is waited for" -/
 theorem seg_data (hn : (rd.h.mtype == cfg.mtSetName) = false) (hr : (rd.h.mtype == cfg.mtModuleReady) = false) :
     SegGoal cfg a rd evs s2 ∧
-    (∀ X : A, X.mods = a.mods → X.fail = a.fail → Spec.checkLoggerWaited cfg X rd evs = X) := by
+    (∀ X : A, X.mods = a.mods → X.fail = a.fail → Spec.checkLoggerWaited cfg X rd evs = X) ∧
+    Spec.checkData cfg (Spec.afterBuf cfg a rd) rd.h evs = Spec.afterBuf cfg a rd ∧
+    Spec.checkAcks cfg (Spec.afterBuf cfg a rd) rd.uid false evs = Spec.afterBuf cfg a rd := by
   rw [readOne_whole cfg s rd inv.top.good.ok m hm hb, pm_data cfg _ _ _ hc hd hs hn hr] at q
   obtain ⟨Z, hZ, hseg⟩ := Spec.segment_data cfg a rd evs am hget hal hb hc hd hs hn hr
   obtain ⟨fr, hfr⟩ : ∃ fr : Frame, fr = Frame.mk rd.h.mtype rd.h.src rd.h.dest rd.h.destHost rd.h.nbytes.toNat (.data rd.h.k) :=
@@ -246,8 +249,10 @@ theorem seg_data (hn : (rd.h.mtype == cfg.mtSetName) = false) (hr : (rd.h.mtype 
             ((recipients cfg sL fr.mtype).filter (elig fr sL)).filter (· == au.uid) := by congr 1
         rw [this, nodup_count_eq _ _ ((hta ht).filter _), if_pos (List.mem_filter.mpr ⟨hinR, hel⟩)]
     · cases hau
-  have hdata : Spec.ErrExt ["C14"] (Spec.afterBuf cfg a rd) (Spec.checkData cfg (Spec.afterBuf cfg a rd) rd.h evs) := by
-    refine Spec.checkData_c01 cfg _ rd.h evs (by rw [hdm]) ?_ c3 ?_
+  have hdataEq : Spec.checkData cfg (Spec.afterBuf cfg a rd) rd.h evs = Spec.afterBuf cfg a rd := by
+    refine Spec.checkData_ok cfg _ rd.h evs (by rw [hdm]) ?_ c3 ?_
+      (fun _ hin hg => data_c5 ok hfuel hperm hs0 t0 rd.h fr hft (by rw [hfr]) hfd hfh s2 evs he
+        (by rw [hsLdef]; exact q.nest) hin hg)
     · intro p hp
       have hp1 : p ∈ Spec.sends evs := by rw [hdm] at hp; exact (List.mem_filter.mp hp).1
       have hpb : p.2.2.body = Body.data rd.h.k := by
@@ -315,11 +320,14 @@ theorem seg_data (hn : (rd.h.mtype == cfg.mtSetName) = false) (hr : (rd.h.mtype 
           refine ⟨au, List.mem_filter.mpr ⟨List.mem_filter.mpr ⟨Spec.get_mem hg, ?_⟩, ?_⟩, by rw [hauid, hpu1]; simp⟩
           · simp [halv, (subscribed_iff hsmu rd.h.mtype ht).mpr hsubs]
           · rw [hauid]; simp [hel, hnfA]
-  have hW : Spec.CoreExt others (Spec.afterBuf cfg a rd) (Spec.checkDepartures cfg Z none evs) :=
+  have hdata : Spec.ErrExt ["C14"] (Spec.afterBuf cfg a rd) (Spec.checkData cfg (Spec.afterBuf cfg a rd) rd.h evs) := by
+    rw [hdataEq]; exact Spec.ErrExt.refl _ _
+  have hW : Spec.CoreExt othersCore (Spec.afterBuf cfg a rd) (Spec.checkDepartures cfg Z none evs) :=
     ((ext_others hdata).trans (core_others hZ)).trans (ext_others (dep_ext hs0 t0 n q evs he
       (hdata.core.trans (hZ.mono (by simp))) none dt.dep (fun u hu => by cases hu)))
   exact ⟨segGoal_of hseg rfl (seg_close hs0 t0 n q evs he hW),
-    fun X hXm hXf => Spec.checkLoggerWaited_of_c01 cfg X (Spec.afterBuf cfg a rd) rd evs hXm hXf c3⟩
+    fun X hXm hXf => Spec.checkLoggerWaited_of_c01 cfg X (Spec.afterBuf cfg a rd) rd evs hXm hXf c3, hdataEq,
+    Spec.checkAcks_false_ok cfg _ rd.uid evs hnil⟩
 
 end data
 
@@ -349,7 +357,7 @@ theorem seg_setName (hn : (rd.h.mtype == cfg.mtSetName) = true) (nm : List Nat)
     exact ⟨_, this, by unfold lookupMod; rw [this]; rfl⟩
   obtain ⟨m0, hm0f, hlk⟩ := hrec
   rw [hlk] at q
-  have hs0 : Sim cfg ((Spec.afterBuf cfg a rd).upd rd.uid (fun m => { m with name := nm }))
+  have hs0 : SimM cfg ((Spec.afterBuf cfg a rd).upd rd.uid (fun m => { m with name := nm }))
       ((rdState cfg s rd).upd rd.uid (fun m => { m with name := nm })) :=
     sim_upd (rdState_sim inv.sim rd) rd.uid _ _ (fun _ => rfl) (fun _ => rfl) (fun _ => rfl)
       (fun am m _ _ h => ⟨h.connected, h.modId, h.unique, h.isLogger, h.isDaemon, rfl, h.pid, h.subs, h.noAll⟩)
@@ -369,7 +377,7 @@ theorem seg_setName (hn : (rd.h.mtype == cfg.mtSetName) = true) (nm : List Nat)
     have p2 := p1.trans (infoOf_presAny cfg _ m0)
     exact infoTo_trans (infoTo_trans i1 i2) (infoTo_rebase q.info p2)
   have he' : s2.out = s0'.out ++ evs := by rw [← hs0']; exact he
-  have hW : Spec.CoreExt others ((Spec.afterBuf cfg a rd).upd rd.uid (fun m => { m with name := nm }))
+  have hW : Spec.CoreExt othersCore ((Spec.afterBuf cfg a rd).upd rd.uid (fun m => { m with name := nm }))
       (Spec.checkInfos (Spec.checkDepartures cfg (Spec.checkAcks cfg
         ((Spec.afterBuf cfg a rd).upd rd.uid (fun m => { m with name := nm })) rd.uid false evs) none evs) evs) := by
     rw [Spec.checkAcks_false_ok cfg _ rd.uid evs hnil]
@@ -385,7 +393,7 @@ theorem seg_ready (hn : (rd.h.mtype == cfg.mtSetName) = false) (hr : (rd.h.mtype
   have hseg := Spec.segment_ready cfg a rd evs am hget hal hb hc hd hs hn hr
   rw [bufs_eq inv.sim rd] at hseg
   generalize bufI32 (rdState cfg s rd).buf 0 = pid at q hseg
-  have hs0 : Sim cfg ((Spec.afterBuf cfg a rd).upd rd.uid (fun m => { m with pid := pid }))
+  have hs0 : SimM cfg ((Spec.afterBuf cfg a rd).upd rd.uid (fun m => { m with pid := pid }))
       ((rdState cfg s rd).upd rd.uid (fun m => { m with pid := pid })) :=
     sim_upd (rdState_sim inv.sim rd) rd.uid _ _ (fun _ => rfl) (fun _ => rfl) (fun _ => rfl)
       (fun am m _ _ h => ⟨h.connected, h.modId, h.unique, h.isLogger, h.isDaemon, h.name, rfl, h.subs, h.noAll⟩)
@@ -404,7 +412,7 @@ theorem seg_ready (hn : (rd.h.mtype == cfg.mtSetName) = false) (hr : (rd.h.mtype
       | none => exact Pres.refl _
       | some m' => exact infoOf_presAny cfg s0' m'
     exact infoTo_trans i1 (infoTo_rebase q.info p1)
-  have hW : Spec.CoreExt others ((Spec.afterBuf cfg a rd).upd rd.uid (fun m => { m with pid := pid }))
+  have hW : Spec.CoreExt othersCore ((Spec.afterBuf cfg a rd).upd rd.uid (fun m => { m with pid := pid }))
       (Spec.checkInfos (Spec.checkDepartures cfg (Spec.checkAcks cfg
         ((Spec.afterBuf cfg a rd).upd rd.uid (fun m => { m with pid := pid })) rd.uid false evs) none evs) evs) := by
     rw [Spec.checkAcks_false_ok cfg _ rd.uid evs hnil]
